@@ -46,7 +46,7 @@ class Case:
         self.ser = pyast.Ser(fn)
         self.text = self.ser.text()
         self.real = c05_real.RealGraphs(fn, self.ser)
-        self.runs = []            # (decisions, trace, outcome, consumed)
+        self.runs = []            # (decisions, trace, outcome, consumed by the walk, decisions of the walk)
         self.runs_exhausted = None
         self.instr_src = None
 
@@ -64,7 +64,7 @@ class Case:
         final = set(g['exits']) | set(g['errors'])
         nodes = set(g['nodes'])
         bad = []
-        for dec, trace, outcome, consumed in self.runs:
+        for dec, trace, outcome, consumed, _wdec in self.runs:
             why = None
             if not trace or trace[0] != g['entry']:
                 why = 'trace does not start at the entry node'
@@ -181,7 +181,7 @@ def process(cases, driver_ok, execute, dec_len=0, dec_runs=0):
                 st['runs'] += len(c.runs)
                 if c.runs_exhausted:
                     st['runs_exhaustive'] += 1
-                for _, _, o, _ in c.runs:
+                for _, _, o, _, _ in c.runs:
                     st['run_outcomes'][o] = st['run_outcomes'].get(o, 0) + 1
                 for why, dec in c.path_failures():
                     st['fails'].append({'what': why, 'case': {'source': c.source, 'key': c.key, 'decisions': dec},
@@ -198,7 +198,7 @@ def process(cases, driver_ok, execute, dec_len=0, dec_runs=0):
                 if g:
                     lines.append('c05.pathcheck %s %s' % (c.text, sexp(c05_real.graph_sexp(fid, g)))); plan.append(('pc', c))
                 if c.runs:
-                    lines.append('c05.walk %s %s' % (c.text, sexp([list(r[0]) for r in c.runs]))); plan.append(('walk', c))
+                    lines.append('c05.walk %s %s' % (c.text, sexp([list(r[4]) for r in c.runs]))); plan.append(('walk', c))
     if driver_ok and lines:
         answers = _drive(lines)
         need_class = []
@@ -266,13 +266,13 @@ def process(cases, driver_ok, execute, dec_len=0, dec_runs=0):
                     need_class.append((c, ans))
             elif what == 'walk':
                 got = common.parse_sexp(ans)
-                for (dec, trace, outcome, consumed), m in zip(c.runs, got):
+                for (dec, trace, outcome, consumed, wdec), m in zip(c.runs, got):
                     mtrace = [int(x) for x in m[0]]
                     mout = {'normal': 'completed', 'return': 'completed'}.get(m[1], m[1])
                     if mtrace == trace and mout == outcome and int(m[2]) == consumed:
                         st['walk_equal'] += 1
                     else:
-                        broken(st, 'correspondence:c05.walk', json.dumps({'key': c.key, 'source': c.source, 'decisions': dec,
+                        broken(st, 'correspondence:c05.walk', json.dumps({'key': c.key, 'source': c.source, 'decisions': dec, 'walk_decisions': wdec,
                                'cpython': [trace, outcome, consumed], 'model': [mtrace, m[1], int(m[2])]}))
         # a graph rejected by the verified path checker: acceptable only in a known class
         if need_class:
@@ -312,10 +312,11 @@ def _skeleton_worker(args):
 
 
 def _family_worker(args):
-    idxs, driver_ok, dec_len, dec_runs = args
+    idxs, driver_ok, dec_len, dec_runs = args[:4]
+    which = args[4] if len(args) > 4 else 'nested-try'
     sys.path.insert(0, common.REPO)
-    fam = c05_gen.nested_try_family()
-    cases = [Case('nested-try-%d' % i, c05_gen.render(fam[i])) for i in idxs]
+    fam = c05_gen.nested_try_family() if which == 'nested-try' else c05_gen.raise_handler_family()
+    cases = [Case('%s-%d' % (which, i), c05_gen.render(fam[i])) for i in idxs]
     st = process(cases, driver_ok, True, dec_len, dec_runs)
     st['fails'] = st['fails'][:40]
     return st
@@ -386,7 +387,7 @@ def check(run):
     run.rule = ('programs: every FunctionDef of /repo (graphs only) + control skeletons enumerated in canonical order '
                 '(all nestings of if/while/for(+else)/with/try-except-else-finally/break/continue/return/raise/nested def, '
                 'rich mode adds lambdas/class/return-lambda leaves; jumps only where legal; dead code included) up to a '
-                '[plus the targeted exhaustive family c05_gen.nested_try_family: try statements nested inside finally/handler/else parts of another try] '
+                '[plus the targeted exhaustive families c05_gen.nested_try_family (try statements nested inside finally/handler/else parts of another try) and c05_gen.raise_handler_family (nested trys with bare/Exception/BaseException/class/tuple handlers and raises of ordinary and BaseException-only classes)] '
                 'statement and depth bound, exhaustive below the bound, stride-sampled (seed-derived offset) above the cap; '
                 'per program the decision tree of the instrumented copy is enumerated depth-first up to a length/run bound. '
                 'A case is a (program) or (program, decision vector); non-trivial = the function graph has more than 2 nodes')
@@ -453,6 +454,16 @@ def check(run):
         absorb(run, st, 'nested-try')
         run.cov['nested_try_family'] = dict({k: st[k] for k in ('programs', 'graphs', 'graph_equal', 'both_error', 'runs', 'walk_equal',
                                                                 'pc_ok', 'pc_rejected_expected', 'runs_exhaustive')}, size=nfam, exhaustive=True)
+        merge_stats(total, dict(st, fails=[]))
+
+        # ---- targeted exhaustive family: which handler of which enclosing try an explicit raise reaches (handler types)
+        nfam = len(c05_gen.raise_handler_family())
+        st = new_stats()
+        for r in pool.map(_family_worker, [(list(range(k, nfam, 32)), run.driver_ok, cfg['dec_len'] + 1, 2 * cfg['dec_runs'], 'raise-handler') for k in range(32)]):
+            merge_stats(st, r)
+        absorb(run, st, 'raise-handler')
+        run.cov['raise_handler_family'] = dict({k: st[k] for k in ('programs', 'graphs', 'graph_equal', 'both_error', 'runs', 'walk_equal',
+                                                                   'pc_ok', 'pc_rejected_expected', 'runs_exhaustive', 'run_outcomes')}, size=nfam, exhaustive=True)
         merge_stats(total, dict(st, fails=[]))
 
         # ---- skeleton spaces
@@ -527,12 +538,12 @@ def replay(run, path):
     if decs is None:
         c.execute(9, 200)
     else:
-        tr, out, consumed, _, taken = c05_instr.run(f, decs[0])
-        c.runs = [(taken, tr, out, consumed)]
+        tr, out, consumed, _, taken, wtaken = c05_instr.run(f, decs[0])
+        c.runs = [(taken, tr, out, consumed, wtaken)]
     bad = c.path_failures()
     for why, dec in bad[:5]:
         print('FAILS decisions=%s: %s' % (dec, why))
-    for dec, tr, out, _ in c.runs[:3]:
+    for dec, tr, out, _, _ in c.runs[:3]:
         print('run', dec, out, [c.label(i) for i in tr])
     if not bad:
         print('no failing run: every probe trace is a path of the real graph')
